@@ -123,6 +123,21 @@ def o_roundtrip(rec: Recorder, case, soft=False):
         # lmhash takes bytes as already OEM-encoded (upper-casing of ASCII only): equivalent for ASCII text
         if secret.isascii() and h.verify(other, hs, **ctx) is not True:
             rec.fail(f"C01/text-bytes/{name}", "lmhash: ASCII password as text and bytes verify differently", "roundtrip", case, repr(other), True, soft=soft)
+    # context values (user, realm) are text or the equivalent encoded bytes, like the password itself
+    for k in ("user", "realm"):
+        if isinstance(ctx.get(k), str):
+            try:
+                bctx = dict(ctx, **{k: ctx[k].encode(ctx.get("encoding") or "utf-8")})
+            except UnicodeEncodeError:
+                continue
+            st, r = call(h.verify, secret, hs, **bctx)
+            if st == "err" or r is not True:
+                rec.fail(f"C01/context-bytes/{name}/{k}", f"{name}: {k}= given as encoded bytes verifies differently from the text", "roundtrip", case, repr(r), True, soft=soft)
+                return
+            st, r = call(lambda: (h.using(**settings) if settings else h).hash(secret, **bctx))
+            if st == "err" or h.verify(secret, r, **ctx) is not True:
+                rec.fail(f"C01/context-bytes/{name}/{k}", f"{name}: hashing with {k}= given as encoded bytes fails or gives a hash that the text form does not verify", "roundtrip", case, repr(r), True, soft=soft)
+                return
     ns = RF.norm_settings(name, settings)
     try:
         kp = f.key(secret, ns, ctx)
